@@ -204,23 +204,40 @@ deriving Repr, DecidableEq
 def partRows (key : String) (cols : List Col) (secs : List Int) : List Queued :=
   (List.range secs.length).map (fun i => ⟨key, secs.getD i 0, rowPayload cols i⟩)
 
+/-- the two repaired statements of `WriteCSM`; `⟨false, false⟩` is the code before the repairs -/
+structure Variant where
+  /-- the columns are re-ordered to the bucket's schema (`cs.Project(bucket names)`) before
+      `ToRowSeries` (repair of C14-F8) -/
+  ordered : Bool
+  /-- records are queued only after every bucket of the request has passed validation (C14-F8b) -/
+  atomic : Bool
+deriving DecidableEq, Repr
+
+/-- `cs.Project(keepList)`: the columns named in `keepList`, in that order -/
+def projectCols (ns : List Str) (cols : List Col) : List Col :=
+  ns.filterMap (fun n => cols.find? (fun c => decide (c.ds.name = n)))
+
+/-- the columns as `ToRowSeries` sees them -/
+def serialCols (v : Variant) (db : List DS) (cols : List Col) : List Col :=
+  if v.ordered then projectCols (names db) cols else cols
+
 /-- the loop of `WriteCSM` over the buckets in the (random) iteration order `parts`: each valid
     bucket's rows are queued at once; the first failing bucket returns the error WITHOUT flushing and
     without un-queueing.  `schema key` = bucket columns (`none` = no such bucket: auto-create with
     the request's shapes).  Returns the error (if any), the rows queued by this request, and the
     buckets auto-created on the way. -/
-def writeCSMLoop (schema : String → Option (List DS)) :
+def writeCSMLoop (v : Variant) (schema : String → Option (List DS)) :
     List Part → List Queued → List (String × List DS) → Option Reject × List Queued × List (String × List DS)
   | [], q, created => (none, q, created)
   | p :: rest, q, created =>
-    if p.secs.isEmpty then writeCSMLoop schema rest q created else
+    if p.secs.isEmpty then writeCSMLoop v schema rest q created else
     let (db, created') := match schema p.key, created.lookup p.key with
       | some db, _ => (db, created)
       | none, some db => (db, created)
       | none, none => (p.cols.map (·.ds), created ++ [(p.key, p.cols.map (·.ds))])
     match checkAndCoerce db p.cols with
-    | .error e => (some e, q, created')
-    | .ok cols' => writeCSMLoop schema rest (q ++ partRows p.key cols' p.secs) created'
+    | .error e => (some e, if v.atomic then [] else q, created')
+    | .ok cols' => writeCSMLoop v schema rest (q ++ partRows p.key (serialCols v db cols') p.secs) created'
 
 /-- the write channel across requests: a failed request leaves its queued rows pending; the next
     successful request's flush commits them together with its own -/
@@ -229,9 +246,9 @@ structure Chan where
 deriving Repr, DecidableEq
 
 /-- one request: result, new channel state, rows committed (flushed) by this request, auto-created buckets -/
-def request (schema : String → Option (List DS)) (ch : Chan) (parts : List Part) :
+def request (v : Variant) (schema : String → Option (List DS)) (ch : Chan) (parts : List Part) :
     Option Reject × Chan × List Queued × List (String × List DS) :=
-  match writeCSMLoop schema parts [] [] with
+  match writeCSMLoop v schema parts [] [] with
   | (some e, q, created) => (some e, ⟨ch.pending ++ q⟩, [], created)
   | (none, q, created) => (none, ⟨[]⟩, ch.pending ++ q, created)
 
